@@ -68,7 +68,7 @@ func selfValidate(id, vdir string) map[string]any {
 				stale = append(stale, e.ID)
 				return
 			}
-			p, err := core.Load(core.LoadConfig{Dir: tmp})
+			p, err := core.LoadCanonical(core.LoadConfig{Dir: tmp})
 			if err != nil {
 				stale = append(stale, e.ID+" (does not type-check)")
 				return
